@@ -90,11 +90,13 @@ impl<'a> UserModel<'a> {
                     old_values,
                 } => {
                     needs_evaluation = true;
-                    // Clear all cells in the array formula range (anchor + spill cells).
+                    // Remove all cells in the array formula range (anchor + spill cells).
+                    // Positions that had a cell are restored below; the others had none,
+                    // and an empty cell left there would keep an explicit style.
                     let ws = self.model.workbook.worksheet_mut(*sheet)?;
                     for r in *row..*row + *height {
                         for c in *column..*column + *width {
-                            let _ = ws.cell_clear_contents(r, c);
+                            let _ = ws.remove_cell(r, c);
                         }
                     }
                     // Restore all cells that existed before the array formula was placed.
